@@ -60,6 +60,8 @@ func gen(a Args, out *Out) {
 		{10, connsim.FreeImmediate},
 		{6, connsim.WriteFail},
 		{12, connsim.FreeEnv},
+		{15, connsim.GatedOverflowThenShutdown},
+		{6, connsim.FreeOverflowThenShutdown},
 	}
 	var jobs []job
 	var ins []Sx
